@@ -106,6 +106,13 @@ Theorem C19_window_limit_any_key : forall cs x, Forall (fun kc => call_ok (snd k
 Proof. exact window_limit_any_key_F. Qed.
 Print Assumptions C19_window_limit_any_key.
 
+(* starts paired with the key setting of their request (khist): in ANY history of key switches no half-open one-second window
+   holds more than 3 starts of keyless requests, whatever keyed requests lie in between *)
+Theorem C19_keyless_window_limit : forall cs x, Forall (fun kc => call_ok (snd kc)) cs ->
+  (keyless_in_window x (khist init cs) <= limit false)%nat.
+Proof. exact keyless_window_limit. Qed.
+Print Assumptions C19_keyless_window_limit.
+
 (* the history that defeated the code before the fix (F53: ten keyed requests, key removed, ten keyless calls one second later -
    all ten started at once) is limited to three per second *)
 Theorem C19_key_removed_limited :
